@@ -151,10 +151,16 @@ def represent (v : Int) (fmt : String) : Except Err String :=
 
 /-! ## `TheCounter.invoke` -/
 
-/-- a format string after the two regex passes: literal text and `${name}` / `${name.fmt}` references -/
+/-- a format string after the two regex passes: literal text and `${name}` / `${name.fmt}` references;
+    and, for a `\the…` macro the *user* redefined with `\renewcommand`, the commands of its body:
+    `\arabic{c}` / `\roman{c}` / … (`call`) and `\the…` (`macro`) -/
 inductive Piece where
   | lit (s : String)
   | ref (name : Name) (fmt : Option String)
+  /-- `\arabic{name}`, `\Roman{name}` … (`Base/LaTeX/Numbering.py`): `counters[name].<fmt>` -/
+  | call (fmt : String) (name : Name)
+  /-- a `\the…` control sequence in a user definition: expanded when the definition is -/
+  | macro (name : Name)
   deriving DecidableEq, Repr
 
 /-- a `\the<counter>` macro class: (`format` split into pieces, `trimLeft`) -/
@@ -187,6 +193,70 @@ def evalPiece (invoke : Name → Except Err String) (s : Store) (self : Name) : 
   | .lit t => pure t
   | .ref name fmt =>
     if isMacroRef self name then invoke name else represent (valD s name) (fmt.getD "arabic")
+  | .call fmt name => represent (valD s name) fmt
+  | .macro name => invoke name
+
+/-! ### the two regex passes of `TheCounter.invoke` as a lexer
+
+```
+format = re.sub(r'\$(\w+)', r'${\1}', self.format)
+t = re.sub(r'\$\{\s*(\w+)(?:\.(\w+))?\s*\}', counterValue, format)
+```
+`\w` and `\s` are modelled on ASCII (letters, digits, `_`; blank, `\t \n \r \f \v`).  Because `\w+` is greedy and
+the characters that may follow a name (`.`, blank, `}`) are not word characters, backtracking never finds a match the
+left-to-right scan below does not find. -/
+
+def isWord (c : Char) : Bool := c.isAlphanum || c == '_'
+def isSpaceChar (c : Char) : Bool :=
+  c == ' ' || c == '\t' || c == '\n' || c == '\r' || c == Char.ofNat 11 || c == Char.ofNat 12
+
+/-- first pass: every `$name` becomes `${name}` (`inW` = inside the name being copied) -/
+def pass1 : Bool → List Char → List Char
+  | inW, [] => if inW then ['}'] else []
+  | inW, c :: r =>
+    if inW && isWord c then c :: pass1 true r
+    else
+      let pre := if inW then ['}'] else []
+      if c == '$' && (match r with | d :: _ => isWord d | [] => false) then pre ++ '$' :: '{' :: pass1 true r
+      else pre ++ c :: pass1 false r
+
+/-- after `${`: `\s*(\w+)(?:\.(\w+))?\s*\}`; returns name, optional representation and the rest of the text -/
+def matchRef (r : List Char) : Option (String × Option String × List Char) :=
+  let r1 := r.dropWhile isSpaceChar
+  let name := r1.takeWhile isWord
+  let r2 := r1.dropWhile isWord
+  if name.isEmpty then none
+  else
+    let close (fm : Option String) (r3 : List Char) : Option (String × Option String × List Char) :=
+      match r3.dropWhile isSpaceChar with
+      | '}' :: rest => some (String.ofList name, fm, rest)
+      | _ => none
+    match r2 with
+    | '.' :: r3 =>
+      let fm := r3.takeWhile isWord
+      if fm.isEmpty then none else close (some (String.ofList fm)) (r3.dropWhile isWord)
+    | _ => close none r2
+
+def flushLit (acc : List Char) : List Piece := if acc.isEmpty then [] else [.lit (String.ofList acc.reverse)]
+
+/-- second pass: the text between matches is literal, every match is a reference (`acc` = literal text so far, reversed) -/
+def pass2 : Nat → List Char → List Char → List Piece
+  | 0, _, acc => flushLit acc
+  | _ + 1, [], acc => flushLit acc
+  | f + 1, c :: r, acc =>
+    if c == '$' then
+      match r with
+      | '{' :: r' =>
+        match matchRef r' with
+        | some (n, fm, rest) => flushLit acc ++ .ref n fm :: pass2 f rest []
+        | none => pass2 f r (c :: acc)
+      | _ => pass2 f r (c :: acc)
+    else pass2 f r (c :: acc)
+
+/-- `TheCounter.format` → pieces -/
+def splitFormat (format : String) : List Piece :=
+  let t := pass1 false format.toList
+  pass2 (t.length + 1) t []
 
 def evalThe : Nat → TheEnv → Store → Name → Except Err String
   | 0, _, _, _ => .error .recursionError
